@@ -345,7 +345,7 @@ func labShared(e labEnv) {
 	tags := map[string]int{}
 	ns := 40
 	if e.thorough() {
-		ns = 400
+		ns = 2000
 	}
 	sharedScenarios(r, ns, w, tags, e.t)
 	must(w.close())
